@@ -585,6 +585,13 @@ func VerifyNODATAForZoneWithWork(
 		if q.Qtype == dns.TypeDS && typesSet(types, dns.TypeSOA) {
 			return false, ErrNSECBadDelegation
 		}
+		// The converse (RFC 6840 §4.1): NS without SOA is the parent's
+		// side of a zone cut, authoritative for DS only. Any other
+		// type at that name belongs to the child zone and is not
+		// denied by this record.
+		if q.Qtype != dns.TypeDS && nsecDelegationBitmap(types) {
+			return false, ErrNSECBadDelegation
+		}
 		return true, nil
 	} else if err != ErrNSECMissingCoverage {
 		return false, err
